@@ -17,6 +17,14 @@ function makePool() {
   return [undefined, null, true, false, 0, -0, 1, NaN, '', 'x', '10', arr, obj, fn]
 }
 const POOL = makePool()
+// functions cannot be copied for the generated code (see deepCopy), so they are frozen instead: faulty
+// generated code that writes into one (`Object.assign(f, ..)`) throws instead of changing what the oracles see
+;(function freezeFns(v, seen) {
+  if (v === null || (typeof v !== 'object' && typeof v !== 'function') || seen.has(v)) return
+  seen.add(v)
+  if (typeof v === 'function') Object.freeze(v)
+  for (const k of Object.keys(v)) freezeFns(v[k], seen)
+})(POOL, new Set())
 
 function rng(seed) {
   let s = (seed >>> 0) || 1
@@ -56,6 +64,26 @@ function* envs(ids, nenv, full, rand) {
     return
   }
   for (let c = 0; c < nenv; c += 1) yield ids.map(() => Math.floor(rand() * POOL.length))
+}
+
+function deepCopy(v, memo) {
+  // (identity is kept: two fields holding one object hold one copy, so `a == b` keeps its value)
+  memo = memo || new Map()
+  if (v === null || typeof v !== 'object') return v
+  if (memo.has(v)) return memo.get(v)
+  if (Array.isArray(v)) {
+    const out = new Array(v.length)
+    memo.set(v, out)
+    for (let i = 0; i < v.length; i += 1) if (i in v) out[i] = deepCopy(v[i], memo)
+    return out
+  }
+  if (Object.getPrototypeOf(v) === Object.prototype) {
+    const o = {}
+    memo.set(v, o)
+    for (const k of Object.keys(v)) o[k] = deepCopy(v[k], memo)
+    return o
+  }
+  return v
 }
 
 function needsDeviation(e) {
@@ -133,11 +161,14 @@ function runChunk(job) {
       let gotErr = null
       try {
         const w = new ProcGenWrapper(procGen)
-        // (a shallow copy: faulty generated code such as `++D.a` must not change what the oracles see)
-        w.create(Object.assign({}, data))
+        // (a deep copy: faulty generated code such as `++D.a` or `Object.assign(D.o, ..)` must not change what
+        // the oracles see; and since no expression form of WXML assigns, the copy must come back unchanged)
+        const mine = deepCopy(data)
+        w.create(mine)
         const root = w.shadowRoot.childNodes[0]
         got = root.attrs.r.a
         if (!('a' in root.attrs.r)) gotErr = 'no value delivered'
+        else if (!same(mine, data)) gotErr = 'the evaluation changed the data to ' + describe(mine)
       } catch (e) { gotErr = e && e.constructor ? e.constructor.name : 'Error' }
       out.evals += 1
       if (wantErr) {
